@@ -449,6 +449,30 @@ pub fn judge_c15(cx: &DeliveryCtx, out: &mut RunOut) {
             None => bad.push("accepted an access key the key store does not know".into()),
         }
     }
+    // The same request through the rest of the public surface (the `service_for_signing_key_fn`
+    // adapter, the library's own body conversions): same identity, same body handed back. Only
+    // when this delivery's key store answered normally (the adapter's key store always does).
+    if cx.script.ready_err.is_none() && cx.script.answer == Answer::Normal {
+        if let Ok(req) = cx.wire.to_request() {
+            let kind = (cx.ix as u8).wrapping_add(cx.wire.body.len() as u8);
+            match libi::validate_via_adapter(req, cx.node, cx.now_ns, cx.accounts, kind) {
+                Some(ValOut::Ok(r2)) => {
+                    out.probe("adapter_and_body_conversion_twin");
+                    if r2.principal != ret.principal || r2.session != ret.session {
+                        bad.push(format!("through service_for_signing_key_fn the identity is {:?}, through the simulated key store {:?}", r2.principal, ret.principal));
+                    }
+                    if r2.body != ret.body {
+                        bad.push(format!("through the library's own body conversion (kind {}) {} bytes come back, {} through the simulated body", kind % 3, r2.body.len(), ret.body.len()));
+                    }
+                    if r2.parts.uri != ret.parts.uri || r2.parts.method != ret.parts.method {
+                        bad.push(format!("through the adapter the returned target is {} {:?}", r2.parts.method, r2.parts.uri));
+                    }
+                }
+                Some(other) => bad.push(format!("accepted through the simulated key store and body, but {} through service_for_signing_key_fn and the library's own body conversion (kind {})", other.short(), kind % 3)),
+                None => bad.push("validation through service_for_signing_key_fn (an immediate key store) did not complete".to_string()),
+            }
+        }
+    }
     for b in bad {
         out.violate("C15", "returned-equals-submitted", format!("{}; {}", b, ctx_line(cx)));
     }
